@@ -38,7 +38,7 @@ opaque("_generate_umim_event", assigns=["arg0.outgoing_events", "val(arg0.action
 ACTIVE = "(old(action.status) == 'starting' or old(action.status) == 'started')"
 BLOCK = "if action.status == ActionStatus.STARTING or action.status == ActionStatus.STARTED"
 
-for _fn in ("_abort_flow", "_finish_flow"):
+for _fn in ("_abort_flow", "_finish_flow", "slide"):          # (slide: the same step when an EndScope closes a scope that started actions)
     contract(
         SM, _fn, prop="C06",
         block=BLOCK,                   # the body of `for action_uid in flow_state.action_uids: action = state.actions[action_uid]`
